@@ -433,7 +433,7 @@ def run(ctx):
 
 
 MANIFEST_ENTRY = {
-    "technique": "static analysis: MIR data-flow pairing of indexer / table / count per locale with loop-freshness, single-writer and constructor-constant checks, traversal agreement between indexing and rendering, typed-template inspection, escape-before-sink check of the exported JSON",
+    "technique": "static analysis: MIR data-flow pairing of indexer / table / count per locale with loop-freshness (followed into private helpers), MIR path traces of push_str / index_strings (py/mirsum.py), MIR single-writer of literal indices, traversal agreement between indexing and rendering, typed-template inspection, and the exported-JSON escaper checked against the JSON string grammar by finite character-class analysis (rules/dtable.py)",
     "level_text": "Structural: for every locale the index space is shown to be created, filled, stored and measured from one fresh indexer; indices have one writer; the generated code is shown to carry table size and index in types; the exported file is shown to be written through an escaper whose table covers what JSON requires. No table is computed.",
     "level_note": "Trusted: const-generic array typing, JSON grammar. Not decided: StringArray::cast at run time, concrete tables.",
 }
